@@ -3,6 +3,7 @@ import pool
 import pool2
 
 META = {
+    "thorough_extra": ["mocks", "client-only"],
     "level": "other",
     "explanation": "Necessary structural conditions of pre-emption and delayed drop, decided on all (feasible) paths of the MIR: (P12) Waiting::poll typestate - "
                    "a NotReady outcome never reaches a state reset / receiver close (path-sensitive exploration with a variant-set domain), a resolved channel always does; "
@@ -37,9 +38,9 @@ def C14_1(ctx, facts):
 RULES = [
     ("P12", pool2.P12, ["default"]),
     ("P13", pool2.P13, ["default"]),
-    ("P9", pool2.P9, ["default"]),
+    ("P9", pool2.P9_aspects("waiters-first", "delivered-or-drained", "payload", "queue-kept"), ["default"]),
     ("P14", pool2.P14, ["default"]),
-    ("P3", pool.P3, ["default"]),
+    ("P3", pool.P3_route, ["default"]),
     ("C14.1", C14_1, ["default"]),
     ("E-WAKER", pool2.E_WAKER_pool, ["default"]),
 ]
